@@ -16,6 +16,7 @@ fn files(ctx: &mut Ctx) {
             let src = bcprops::big_program(pad, rows);
             let f = cli::write_file(&ctx.scratch, "big.fml", src.as_bytes());
             let ast = ctx.scratch.join("big.json"); let bcf = ctx.scratch.join("big.bc");
+            let _ = std::fs::remove_file(&ast); let _ = std::fs::remove_file(&bcf);
             let run = cli::simple(&exe, &["run", f.to_str().unwrap()]);
             let p = cli::simple(&exe, &["parse", f.to_str().unwrap(), "-o", ast.to_str().unwrap(), "--format", "json"]);
             let c = cli::simple(&exe, &["compile", ast.to_str().unwrap(), "-o", bcf.to_str().unwrap()]);
@@ -33,9 +34,37 @@ fn files(ctx: &mut Ctx) {
     }
 }
 
+/// every constant-pool size 0..=600 through files and the real command line
+fn pool_size_sweep(ctx: &mut Ctx) {
+    ctx.stage("pool-size sweep through the command line (processes)");
+    let exe = ctx.exe.clone();
+    let mut first_bytes = std::collections::BTreeSet::new();
+    for n in 0..=600usize {
+        if ctx.take().is_none() { continue }
+        let src = bcprops::sweep_program(n);
+        let bytes = match super::super::pipeline::compile_source(&src) { Ok(b) => b, Err(_) => continue };
+        first_bytes.insert(bytes[0]);
+        let bcf = cli::write_file(&ctx.scratch, "sweep.bc", &bytes);
+        let expected: String = (0..n).map(|i| format!("row {} of the sweep é\n", i)).collect();
+        let e = cli::simple(&exe, &["execute", bcf.to_str().unwrap()]);
+        let e2 = cli::run(&exe, &["execute"], Some(&bytes), None, &[], std::time::Duration::from_secs(20));
+        ctx.count("programs", 1); ctx.count("cli_pipelines", 2);
+        ctx.nontrivial(&n.to_le_bytes());
+        for (how, r) in [("file", &e), ("stdin", &e2)] {
+            if !r.ok() || r.stdout != expected.as_bytes() {
+                ctx.violation("roundtrip/file-behaviour-changes", "a serialized program executed from a file behaves differently from the program that was serialized",
+                    json!({"text": format!("null; print(\"row 0 of the sweep é\\n\"); ... ({} prints)", n), "bytecode_bytes": bytes.len(), "first_bytes_hex": super::super::codec::hex(&bytes[..bytes.len().min(8)]),
+                           "input": how, "execute_exit": r.code, "execute_stderr": r.err().chars().take(300).collect::<String>(), "cli": "fml execute x.bc"}));
+            }
+        }
+    }
+    ctx.max("distinct_first_bytes_in_this_worker", first_bytes.len() as u64);
+}
+
 pub fn run(ctx: &mut Ctx) {
     bcprops::golden_files(ctx, Which::C03);
     files(ctx);
+    pool_size_sweep(ctx);
     bcprops::direct_programs(ctx, Which::C03, if ctx.quick() { 3 } else { 4 });
     let (syn_n, sem_n) = if ctx.quick() { (4, 3) } else { (5, 4) };
     bcprops::compiler_outputs(ctx, Which::C03, syn_n, sem_n);
